@@ -295,6 +295,22 @@ def run(ctx):
     ctx.directed_search = directed
 
 
+def crashed(ctx, phase, rc, outs, lines, err, mdls):
+    """the real code crashed (or stopped answering) inside a call: a failing input, not an infrastructure problem"""
+    idx = min(len(outs), len(lines) - 1)
+    line = lines[idx]
+    t = line.split()
+    k = int(t[1]) if t[0] in ("poke", "qpos", "step") else int(dict(x.split("=") for x in t[1:9]).get("model", 0)) if t[0] == "upd" else 0
+    prefix = [l.split("|")[0].strip() for l in lines[:idx]
+              if (l.split()[0] in ("poke", "qpos", "step") and int(l.split()[1]) == k) or (" model=%d " % k) in l]
+    ctx.oracle_failure("c50:crash", "mjv_makeScene/mjv_updateScene harness died (rc=%s) in the %s pass on: %s" % (rc, phase, line[:200]),
+                       {"line": line.split("|")[0].strip(), "earlier_lines_for_this_model": prefix[-60:], "model": mdls[k].text(),
+                        "stderr": err[-400:],
+                        "replay": "write `model` to a file F (it becomes model 0: replace model=%d / the model index by 0) and feed "
+                                  "the earlier lines then `line` to: c50_scene F" % k})
+    return 1
+
+
 def run_batch(ctx, drv, impl, nmodels, nepoch, nconf, hist, first):
     rng = ctx.rng
     mdls = gen_models(ctx, nmodels)
@@ -313,7 +329,7 @@ def run_batch(ctx, drv, impl, nmodels, nepoch, nconf, hist, first):
                 la.append(upd_line(SCRATCH_SCENE, e[1], 100000, e[3][0]))
         rc, oa, err = ctx.run_lines([impl, mpath], la)
         if rc != 0 or len(oa) != len(la):
-            raise common.Infra("c50 harness failed in the probe pass: rc=%d %s" % (rc, err[-400:]))
+            return crashed(ctx, "probe", rc, oa, la, err, mdls)
         probes = {}
         pi = 0
         for e in script:
@@ -351,7 +367,7 @@ def run_batch(ctx, drv, impl, nmodels, nepoch, nconf, hist, first):
                 hist["alpha0-geoms"] += na > n
         rc, ob, err = ctx.run_lines([impl, mpath], lb)
         if rc != 0 or len(ob) != len(lb):
-            raise common.Infra("c50 harness failed in the dump pass: rc=%d %s" % (rc, err[-400:]))
+            return crashed(ctx, "dump", rc, ob, lb, err, mdls)
         # ---- pass C: differential on lines carrying the inputs the real call reads
         lc = []
         for l, o, mt in zip(lb, ob, meta):
@@ -374,9 +390,7 @@ def run_batch(ctx, drv, impl, nmodels, nepoch, nconf, hist, first):
         # ---- S: property oracle on the implementation's outputs
         nfail = 0
         if rc != 0 or len(oc) != len(lc):
-            ctx.oracle_failure("c50:crash", "scene harness crashed (rc=%s) after %d of %d lines" % (rc, len(oc), len(lc)),
-                               {"line": lc[min(len(oc), len(lc) - 1)][:3000], "stderr": err[-400:], "models_file_seed": ctx.seed})
-            return 1
+            return crashed(ctx, "differential", rc, oc, lc, err, mdls)
         groups = {}
         for l, o, mt in zip(lc, oc, meta):
             if mt is None:
